@@ -16,6 +16,7 @@ from .. import genpel, dirrun, project, seams
 ID = 'C08'
 LEVEL = 'model_checking'
 TRACE = 'trace/Trace_Dir'
+PROCESS_EVERY = 5         # every fifth case runs the command line as a real process (seams.PROC_VARIANTS)
 RULE = ('case = one directory of 0-25 (thorough: up to 60) well-formed PELs with distinct entry ids and adversarial '
         'file names x one option set (6 switches, severity groups, --reverse, --extension), shown with -n, -l, -a and '
         'their --hex variants; non-trivial = at least two PELs are selected and at least one is not; distinct = by '
@@ -90,7 +91,14 @@ def run_case(case):
         elif r_ < .12:
             pel['secs'] = [s for s in pel['secs'] if s['kind'] != 'SRC'] or [genpel.gen_mt(rng)]   # sections, but no SRC
         data = bytes(__import__('harness.encode', fromlist=['encode']).encode(pel))
-        files.append((nm, data))
+        if rng.random() < .12:
+            # the log is kept elsewhere and linked into the directory (relative or absolute link): a file like any other
+            store = d + '_store'
+            os.makedirs(store, exist_ok=True)
+            seams.write_file(os.path.join(store, 's_' + nm), data)
+            files.append((nm, ('symlink', rng.choice([os.path.join('..', 'dir_store', 's_' + nm), os.path.join(store, 's_' + nm)]))))
+        else:
+            files.append((nm, data))
         fattrs.append(dirrun.attrs(pel, nm, data))
     dirrun.write_dir(d, files)
     sw = [rng.random() < p for p in (.15, .3, .3, .3, .25, .35)]
@@ -119,6 +127,7 @@ def run_case(case):
         rec['shape_error'] = repr(e)[:300]
     import shutil
     shutil.rmtree(d, ignore_errors=True)
+    shutil.rmtree(d + '_store', ignore_errors=True)
     return [rec]
 
 
